@@ -396,7 +396,7 @@ def _run(ctx):
                                  invariants=INVS, raw=SUBST)
             rc = tlc.run('TlvModelC07', cfgc, workers=2, coverage=True, env={'C07_TAB': kit.scratch('c07-tab-cov.json')})
             for a in ACTIONS:
-                if rc.coverage.get(a, (0, 0))[0] == 0:
+                if rc.coverage.get(a, (0, 0))[1] == 0:
                     raise tlc.MachineryError('vacuous: action %s never taken in TlvModelC07' % a)
             kit.check_witnesses('TlvModelC07', WITNESSES, {'MaxLen': 3, 'Lvl': 0, 'Pks': '{"interest","data","cert","lp"}'},
                                 raw=SUBST, env={'C07_TAB': 'c07-tab-w.json'})
